@@ -87,6 +87,12 @@ func c01ContextShapes() [][]*Sh {
 		func() *Sh { return &Sh{K: "whileinf", Blocks: [][]*Sh{{{K: "cmd"}, {K: "if", Blocks: [][]*Sh{{{K: "break"}}}}}}} },
 		func() *Sh { return &Sh{K: "dowhile", Blocks: [][]*Sh{{{K: "cmd"}, {K: "if", Blocks: [][]*Sh{{{K: "continue"}}}}}}} },
 	}
+	// labels after break (known finding #10 lives here)
+	for _, lp := range []string{"while", "whileinf", "dowhile"} {
+		res = append(res, []*Sh{{K: "goto"}, {K: lp, Blocks: [][]*Sh{{{K: "break"}, {K: "label"}}}}})
+		res = append(res, []*Sh{{K: lp, Blocks: [][]*Sh{{{K: "break"}, {K: "label"}, {K: "cmd"}}}}, {K: "goto"}})
+		res = append(res, []*Sh{{K: lp, Blocks: [][]*Sh{{{K: "goto"}, {K: "break"}, {K: "label"}}}}})
+	}
 	outer := []string{"if", "ifelse", "while", "whileinf", "dowhile"}
 	for _, o := range outer {
 		for ii, mk := range inner {
